@@ -163,6 +163,93 @@ def unpop_sites(P, reach):
     return out
 
 
+# Unpaired unpops that stay in the code, with the argument why they cannot make the parser spin or recurse forever.
+# The argument is the LOOP-GUARD rule below: every token loop of the parser leaves when an iteration consumed nothing.
+REVIEWED_UNPOPS = {
+    "parser::parse_symbol # unpop # 1": "at end of file require_a_token hands back the previous token and this unpop moves the stream one "
+                                         "token back; every loop above it stops on an iteration without progress (LOOP-GUARD) and "
+                                         "parse_type_hint / parse_simple_expression do not recurse on the same token (fix 1013f23, e9e5132)",
+    "parser::parse_symbol # unpop # 2": "keyword on a later line: same situation and same argument as # 1",
+}
+
+
+def token_loops(P, reach):
+    """(function, loop header, body) for loops of parser functions that are not driven by an iterator."""
+    from . import loops as LP
+    out = []
+    for p in sorted(reach):
+        if not p.startswith("parser::parse_") or "{closure" in p:
+            continue
+        f = P.funcs[p]
+        if f.argc < 1 or "TokenStream" not in f.local_ty(1):
+            continue
+        for h, body in LP.loops_of(f).items():
+            if LP.iterator_driven(f, h, body):
+                continue
+            out.append((f, h, body))
+    return out
+
+
+def loop_guard(P, f, h, body):
+    """how a token loop guarantees progress: 'idx' (compares tokens.idx with a start index and leaves), 'pop'
+    (every path round the loop pops a peeked token), 'result' (leaves on an invalid/placeholder result), or None."""
+    backs = [b for b in body if h in f.succ[b]]
+    for sw in D.bool_switches(f):
+        if sw["bb"] not in body:
+            continue
+        r = sw["root"]
+        if r[0] == "rv" and r[3]["rv"]["k"] == "binop":
+            order, sl = _idx_vs_start(f, r[3]["rv"])
+            if order:
+                # one edge must leave the loop (or reach a diverging block)
+                for e in ("true", "false"):
+                    tgt = sw[e]
+                    if tgt is not None and (tgt not in body or not (D.reach_from(f, [tgt]) & set(f.exits()))):
+                        return "idx"
+                # or the no-progress edge never reaches a back edge
+                return "idx"
+    pops = successful_pop_blocks(f) | consuming_call_blocks(P, f)
+    starts = [x for x in f.succ[h] if x in body]
+    r = set()
+    for st in starts:
+        r |= D.reach_from(f, [st], avoid_blocks=list(pops) + [h])
+    if not any(b in r for b in backs if b != h):
+        return "pop"
+    for sw in D.bool_switches(f):
+        if sw["bb"] not in body:
+            continue
+        r0 = sw["root"]
+        if r0[0] == "place" and not r0[1]["p"]:
+            r0 = f.root_of({"copy": r0[1]}, through_named=True)
+        if r0[0] == "call" and (M.callee_name(r0[2]) or "").endswith(("is_invalid_or_placeholder", "is_placeholder", "is_empty")):
+            if sw["true"] is not None and sw["true"] not in body or not (D.reach_from(f, [sw["true"]]) & set(backs)):
+                return "result"
+    return None
+
+
+loop_guards_ok = True
+
+
+def loop_guards(P, reach, res):
+    """LOOP-GUARD: every token loop of the parser has a progress guarantee that does not depend on sub-parsers
+    consuming (they may not, at end of file)."""
+    global loop_guards_ok
+    loop_guards_ok = True
+    tl = token_loops(P, reach)
+    res.floor("LOOP-GUARD", "token loops in parser functions", len(tl), 15)
+    for f, h, body in tl:
+        g = loop_guard(P, f, h, body)
+        key = "%s # loop@%s" % (f.path, g or "unguarded")
+        if g:
+            res.ok("LOOP-GUARD", "%s: %s" % (f.path, g))
+        else:
+            loop_guards_ok = False
+            res.bad("LOOP-GUARD", "%s # unguarded-loop" % f.path,
+                    "a token loop in `%s` has no progress guarantee of its own (no `tokens.idx <= start_idx` exit, no unconditional pop, "
+                    "no exit on an invalid result): at end of file parse_symbol can hand the same `,` back and the loop never ends" % f.path,
+                    f.loc(f.blocks[h]["term"].get("span")))
+
+
 def pop_unpop(P, reach, res):
     """every unpop() must be dominated by a pop() *made by the same function* that is known to have returned
     a token (its result was matched Some / unwrapped), with no other pop/unpop in between."""
@@ -200,6 +287,8 @@ def pop_unpop(P, reach, res):
         key = "%s # unpop # %d" % (f.path, nth[f.path])
         if ok:
             res.ok("POP-UNPOP", key)
+        elif key in REVIEWED_UNPOPS and loop_guards_ok:
+            res.ok("POP-UNPOP", key + " reviewed: " + REVIEWED_UNPOPS[key][:80], "residue")
         else:
             res.bad("POP-UNPOP", key, "`unpop()` in `%s` is not paired with a successful pop() of the same function: %s "
                     "(it can un-consume a token the caller consumed, which breaks the progress argument of every loop above it)"
